@@ -19,6 +19,7 @@ type c18Entry struct {
 	hasT    bool
 	content string
 	missing bool
+	isDir   bool // the listed name exists but is a directory: it opens, and cannot be read
 }
 
 type c18Case struct {
@@ -105,6 +106,10 @@ func c18Generate(rng *core.Rand, k int) *c18Case {
 		if i == missingAt {
 			e.missing = true
 			e.file = fmt.Sprintf("missing%d.fo", i)
+			if rng.Chance(0.4) {
+				e.isDir = true
+				e.file = fmt.Sprintf("adir%d.fo", i)
+			}
 		}
 		line := e.file
 		if e.hasT {
@@ -136,7 +141,7 @@ func runC18(r *core.Run, tier string) {
 		return
 	}
 	defer env.Close()
-	r.Rule("a case is one generated directory (list file with 0..12 entries, titles with several / leading / trailing spaces, entries without title, blank lines anywhere, with or without final newline, list in a sub-directory, sample contents with back-ticks, %, ###, NUL, CRLF, multi-byte text, empty, no trailing newline; optionally one listed file missing; optionally a README.md present beforehand) processed by each of two builds of the tool (checked-in gen_build_sample_md.go; build_sample_md.fo re-transpiled by the rebuilt fc); README.md is compared byte for byte with a reference renderer; with a missing file the run must exit non-zero and leave README.md as it was; non-trivial = at least 2 entries; distinct by list text")
+	r.Rule("a case is one generated directory (list file with 0..12 entries, titles with several / leading / trailing spaces, entries without title, blank lines anywhere, with or without final newline, list in a sub-directory, sample contents with back-ticks, %, ###, NUL, CRLF, multi-byte text, empty, no trailing newline; optionally one listed file missing or being a directory (it opens but cannot be read); optionally a README.md present beforehand) processed by each of two builds of the tool (checked-in gen_build_sample_md.go; build_sample_md.fo re-transpiled by the rebuilt fc); README.md is compared byte for byte with a reference renderer; with a missing file the run must exit non-zero and leave README.md as it was; non-trivial = at least 2 entries; distinct by list text")
 	r.Assume("file names contain no spaces and no directory separators", "an entry whose file cannot be read must fail the run (statement: 'fails instead of writing a partial section')")
 	type tool struct{ name, bin string }
 	var tools []tool
@@ -187,6 +192,8 @@ func runC18(r *core.Run, tier string) {
 			for _, e := range c.entries {
 				if !e.missing {
 					os.WriteFile(filepath.Join(ld, e.file), []byte(e.content), 0o644)
+				} else if e.isDir {
+					os.MkdirAll(filepath.Join(ld, e.file), 0o755)
 				}
 			}
 			os.WriteFile(filepath.Join(ld, "list.txt"), []byte(c.listText()), 0o644)
